@@ -42,6 +42,7 @@ type apiCase struct {
 	Doorkeeper bool      `json:"doorkeeper,omitempty"`
 	Steps      []apiStep `json:"steps"`
 	Overflow   int       `json:"overflow,omitempty"` // hybrid chains: distinct keys stored once at the end
+	Churn      int       `json:"churn,omitempty"`    // doorkeeper: this many further keys are stored (twice each) so that the shards' filters are replaced and aged
 }
 
 var apiChains = []string{"plain", "loading", "build-with-loader", "hybrid", "hybrid-loading", "loading-hybrid"}
@@ -90,6 +91,10 @@ func genAPI(t *rapid.T) apiCase {
 		return s
 	})
 	c.Steps = rapid.SliceOfN(step, 1, 40).Draw(t, "steps")
+	if c.Doorkeeper && rapid.Bool().Draw(t, "churnCase") {
+		c.MaxSize = 100000
+		c.Churn = rapid.SampledFrom([]int{600, 1500, 4000}).Draw(t, "churn")
+	}
 	if c.Chain == "hybrid" || c.Chain == "hybrid-loading" || c.Chain == "loading-hybrid" {
 		c.Overflow = rapid.SampledFrom([]int{0, 0, 60, 100}).Draw(t, "overflow")
 	}
@@ -629,7 +634,57 @@ func execAPI(c apiCase, x *verifkit.Ctx) (fail *verifkit.Failure) {
 			x.Class("hybrid-overflow-with-demotions")
 		}
 	}
-	if mixedTTL || expiredWrite || oversize || loaded {
+	// churn phase (doorkeeper): many more keys than a shard's first bloom filter is sized for, each stored
+	// until the doorkeeper lets it in. The filters are re-allocated as the shards' maps grow and emptied
+	// when they have refused enough first sightings - the entries stay. Every key whose Set returned true
+	// must be readable afterwards, and a further Set on it must succeed and be readable (seeded C06g: a
+	// read path that trusts the filter).
+	if c.Churn > 0 {
+		base := 50000
+		vals := map[int]int{}
+		for j := 0; j < c.Churn; j++ {
+			k := base + j
+			for try := 0; try < 3; try++ {
+				v := newVal(k, false)
+				if cl.set(k, v, 1, 0) {
+					vals[k] = v
+					break
+				}
+			}
+		}
+		keys := make([]int, 0, len(vals))
+		for k := range vals {
+			keys = append(keys, k)
+		}
+		sort.Ints(keys)
+		lost, first := 0, -1
+		for _, k := range keys {
+			gv, gok, gerr := apiPeek(cl, ls, k)
+			if gerr != nil || !gok || gv != vals[k] {
+				lost++
+				if first < 0 {
+					first = k
+				}
+			}
+		}
+		if lost > 0 {
+			return verifkit.Failf("api/lost-without-reason/doorkeeper-churn", "chain %s, doorkeeper on, MaxSize %d: %d keys of cost 1 were stored (Set returned true) and never deleted; %d of them cannot be read (first: key %d)", c.Chain, c.MaxSize, len(vals), lost, first)
+		}
+		for i, k := range keys {
+			if i%7 != 0 {
+				continue
+			}
+			v := newVal(k, false)
+			if !cl.set(k, v, 1, 0) {
+				return verifkit.Failf("api/set/false-without-reason", "chain %s, doorkeeper on: Set on resident key %d returned false", c.Chain, k)
+			}
+			if gv, gok, _ := apiPeek(cl, ls, k); !gok || gv != v {
+				return verifkit.Failf("api/set/not-readable", "chain %s, doorkeeper on: Set on resident key %d returned true but the Get right after it gave (%d, %v), want (%d, true)", c.Chain, k, gv, gok, v)
+			}
+		}
+		x.Class("doorkeeper-churn")
+	}
+	if mixedTTL || expiredWrite || oversize || loaded || c.Churn > 0 {
 		x.NonTrivial()
 	}
 	return nil
@@ -675,7 +730,7 @@ func minInt(a, b int) int {
 func TestVerifC06API(t *testing.T) {
 	verifkit.Run(t, verifkit.Spec[apiCase]{
 		ID: "C06", Gen: genAPI, Exec: execAPI,
-		Rule: "C06 (public API tier): rapid draws one of the six public builder chains (Build, Loading.Build, BuildWithLoader, Hybrid.AdmProbability.Build, Hybrid.Workers.Loading.Build, Loading.Hybrid.Build), MaxSize, cost function on/off, doorkeeper on/off, a removal listener, and up to 40 steps of SetWithTTL (costs 1..30, MaxSize+1, 5 x MaxSize, or 0 = cost function, which prices some values above MaxSize; TTLs 1 ns..1 h or none) / Get (loading chains: scripted loader value, cost, TTL) / Delete / advance of the virtual clock to and around the deadlines / views (Wait, Range, Len, EstimatedSize); the costs of all keys together fit into MaxSize, so nothing may be evicted; reference map with per-key hard deadline (never served at or after it) and soft deadline (a miss is acceptable from then on: TTL-less Set over an unexpired TTL'd value); hybrid chains end with an overflow phase of 60 or 100 distinct keys stored once (3 or 5 x MaxSize in total; fewer insert events per case than the hand-off queue has slots) all of which must be found in one of the tiers; non-trivial = TTL and non-TTL writes mixed on a key, a write after expiry, an oversize cost, or a load",
+		Rule: "C06 (public API tier): rapid draws one of the six public builder chains (Build, Loading.Build, BuildWithLoader, Hybrid.AdmProbability.Build, Hybrid.Workers.Loading.Build, Loading.Hybrid.Build), MaxSize, cost function on/off, doorkeeper on/off, a removal listener, and up to 40 steps of SetWithTTL (costs 1..30, MaxSize+1, 5 x MaxSize, or 0 = cost function, which prices some values above MaxSize; TTLs 1 ns..1 h or none) / Get (loading chains: scripted loader value, cost, TTL) / Delete / advance of the virtual clock to and around the deadlines / views (Wait, Range, Len, EstimatedSize); the costs of all keys together fit into MaxSize, so nothing may be evicted; reference map with per-key hard deadline (never served at or after it) and soft deadline (a miss is acceptable from then on: TTL-less Set over an unexpired TTL'd value); hybrid chains end with an overflow phase of 60 or 100 distinct keys stored once (3 or 5 x MaxSize in total; fewer insert events per case than the hand-off queue has slots) all of which must be found in one of the tiers; half of the doorkeeper cases use MaxSize 100000 and end with a churn phase (600..4000 further keys, each stored until the doorkeeper admits it, so that every shard's filter is re-allocated and emptied while the entries stay): every admitted key must be readable and writable afterwards; non-trivial = a churn phase, or TTL and non-TTL writes mixed on a key, a write after expiry, an oversize cost, or a load",
 		Assumptions: []string{
 			"sequential client; virtual wall clock (hook H1) with the real once-a-second maintenance tick running in the background: Len and EstimatedSize are therefore judged as intervals (expired entries may or may not have been reclaimed), reads and Range exactly",
 			"entry pool off; the doorkeeper's answers for keys that are not certainly resident are accepted either way (bloom filter)",
